@@ -124,12 +124,14 @@ def gen_case(run_seed: int, tier: str) -> dict[str, Any]:
         if mode == "auto":
             o_argv = [x for x in o_argv if x not in ("-p", "--plaintext")]
             opts = dict(opts, plaintext=False)
-        parts = [flags, o_argv, args]
+        parts = [flags, o_argv]
         if w.random() < 0.5:
-            parts = [o_argv, flags, args]
-        inv["argv"] = [x for part in parts for x in part]
+            parts = [o_argv, flags]
+        inv["flags_argv"] = [x for part in parts for x in part]
         if mode == "stdout" and w.random() < 0.4:
-            inv["argv"] = ["-o", "-"] + inv["argv"]
+            inv["flags_argv"] = ["-o", "-"] + inv["flags_argv"]
+        inv["args"] = args
+        inv["argv"] = inv["flags_argv"] + args
     elif mode == "stdin_o":
         out = w.choice(["out.md", "newdir/out.md", docs[0]])
         inv["argv"] = ["-o", out] + _opts_argv(w, opts) + ["-"]
@@ -252,8 +254,11 @@ class Exec:
             if is_aux(rel):
                 continue
             if "l" in self.tree[rel] and rel not in named:
-                # a symlink that is not itself an argument: a bystander; only the link must stay
-                self.links[rel] = self.tree[rel]["l"]
+                # a symlink that is not itself an argument is a bystander (only the link must
+                # stay) - unless a directory/glob argument may discover and format it in place,
+                # which legitimately replaces the link: then it is left unconstrained
+                if all(a in self.tree and "d" not in self.tree[a] for a in (inv.get("args") or [])):
+                    self.links[rel] = self.tree[rel]["l"]
                 continue
             full = os.path.join(root, rel)
             kind = simproc.lstat_kind(full)
@@ -349,6 +354,21 @@ class Exec:
                 self.violation = {"kind": "damaged-partial" if (new or b"").startswith(cur) else "damaged-mixed", "path": out_rel, "when": when, "at_op": o.rec() if o is not None else None, "cur_len": len(cur), "new_len": None if new is None else len(new)}
 
 
+def _solo_case(case: dict[str, Any], rel: str) -> dict[str, Any] | None:
+    """The same invocation style applied to `rel` alone (None when `rel` cannot be a target)."""
+    inv = case["inv"]
+    if "l" in case["tree"][rel]:
+        return None
+    if "argv" in inv:
+        if "flags_argv" not in inv:
+            return None
+        return dict(case, inv=dict(inv, argv=inv["flags_argv"] + [rel], args=[rel]))
+    api = inv["api"]
+    if api["fn"] == "reformat_file":
+        return dict(case, inv=dict(inv, api=dict(api, path=rel)))
+    return dict(case, inv=dict(inv, api=dict(api, files=[rel])))
+
+
 def final_docs(root: str, tree: dict[str, Any], extra: list[str]) -> dict[str, bytes | None]:
     out: dict[str, bytes | None] = {}
     for rel in list(tree) + extra:
@@ -439,15 +459,36 @@ def _run_case(env: Env, case: dict[str, Any], scratch: str, want_trace: bool) ->
     ex0, res0 = _exec_once(case, scratch, [], {"listing": "native"}, None)
     new = final_docs(ex0.root, ex0.tree, extra)
     base_tree = simproc.snapshot(ex0.root)
+    # files the fault-free run rewrites (inode replaced): the targets a fault-free re-run must format
+    base_rewritten: set[str] = set()
+    for rel, (_, ino0) in ex0.docs.items():
+        try:
+            if simproc._REAL["lstat"](os.path.join(ex0.root, rel)).st_ino != ino0:
+                base_rewritten.add(rel)
+        except OSError:
+            pass
     base_log = list(ex0.ip.log)
     K = len(base_log)
     base_exit, base_stdout = res0.exit, res0.stdout
     counters["baseline_ops"] = K
     counters["baseline_exit"] = {str(base_exit): 1}
-    # second baseline: the same invocation applied to the result (what a re-run must produce)
-    case2 = dict(case, tree={rel: ({"f": b2j(new[rel])} if ("f" in ent and new.get(rel) is not None) else ent) for rel, ent in case["tree"].items()})
-    ex1, res1 = _exec_once(case2, scratch, [], {"listing": "native"}, None)
-    new2 = final_docs(ex1.root, ex1.tree, extra)
+    # "complete new content" of each document: what the same kind of invocation writes for that
+    # file alone (the whole-run baseline may stop early at a file that fails, and a fault may make
+    # discovery skip that file - the files after it then legitimately get formatted)
+    new2: dict[str, bytes | None] = dict(new)
+    if case["inplace"]:
+        for rel in list(ex0.docs):
+            solo = _solo_case(case, rel)
+            if solo is None:
+                continue
+            exs, _ = _exec_once(solo, scratch, [], {"listing": "native"}, None)
+            got = simproc.read_bytes(os.path.join(exs.root, rel))
+            new[rel] = got
+            # and what a re-run on that result must produce
+            solo2 = dict(solo, tree={**solo["tree"], rel: {"f": b2j(got)}}) if got is not None and "f" in case["tree"][rel] else solo
+            exs2, _ = _exec_once(solo2, scratch, [], {"listing": "native"}, None)
+            new2[rel] = simproc.read_bytes(os.path.join(exs2.root, rel))
+        counters["solo_baselines"] = 2 * len(ex0.docs)
 
     violations: list[dict[str, Any]] = []
     seen_fp: set[str] = set()
@@ -517,6 +558,8 @@ def _run_case(env: Env, case: dict[str, Any], scratch: str, want_trace: bool) ->
                     bad = {"why": "re-run after faults stopped did not exit 0", "exit": res2.exit, "exc": res2.exc, "stderr": res2.stderr[-300:].decode("utf-8", "replace")}
                 else:
                     for rel in ex.docs:
+                        if rel not in base_rewritten:
+                            continue
                         cur, exp = surv.get(rel), after.get(rel)
                         if cur == ex.docs[rel][0]:
                             want = new.get(rel)
